@@ -374,6 +374,18 @@ class GraphInitializers(collections.UserDict[str, "_core.Value"]):
         self.update(other)
         return self
 
+    def copy(self) -> dict[str, _core.Value]:  # type: ignore[override]
+        """Return a shallow copy as a plain ``dict``.
+
+        A copy does not track ownership: editing it changes neither the graph nor the values.
+        (The inherited ``UserDict.copy`` would build a second tracked mapping bound to the same
+        graph; removing an entry from it would clear ``is_initializer()`` of a value the graph
+        still stores.)
+        """
+        return self.data.copy()
+
+    __copy__ = copy
+
     # ------------------------------------------------------------------
     # Tensor-centric convenience accessors
     #
